@@ -10,6 +10,7 @@ pub fn dispatch(req: &Value) -> Value {
         "binding_keys" => binding_keys(),
         "derive_outcomes" => derive_outcomes(),
         "ts_wins" => ts_wins(),
+        "variant_literals" => variant_literals(),
         "ts_field_name" => ts_field_name(req),
         "parse_docs" => parse_docs(req),
         "conformance" => super::conformance::run(req["seed"].as_u64().unwrap_or(0), req["n"].as_u64().unwrap_or(2000) as usize),
@@ -162,6 +163,14 @@ second paragraph after a blank line */
     #[derive(TS)]
     #[ts(export_to = "shared.ts")]
     pub struct Q { pub q: i32 }
+    // the same type first inlined, then referred to by name: the named reference still needs the type's own file
+    #[derive(TS)]
+    #[ts(export_to = "inline_then_name.ts")]
+    pub struct IR { #[ts(inline)] pub a: P3, pub b: P3 }
+    // a dependency reachable only through a variant-level `as`
+    #[derive(TS)]
+    #[ts(export_to = "variant_as_root.ts")]
+    pub enum VA { #[ts(as = "P2")] X(String), Y }
     // dependencies reachable only through the arguments of Result's error type
     #[derive(TS)]
     #[ts(export_to = "result_root.ts")]
@@ -189,7 +198,7 @@ fn export_step(kind: &str, ty: &str, dir: Option<&str>) -> Result<(), String> {
         "export_all_to" => <$t>::export_all_to(dir.unwrap()),
         _ => panic!("unknown step kind"),
     } } }
-    let r = match ty { "A" => go!(hist::A), "B" => go!(hist::B), "C" => go!(hist::C), "D" => go!(hist::D), "M" => go!(hist::M), "N" => go!(hist::N), "AL" => go!(hist::AL), "RS" => go!(hist::RS), "Q" => go!(hist::Q), "Pair" => go!(hist::Pair<i32>), "Pair2" => go!(hist::Pair2), "Pair3" => go!(hist::Pair3), "GR" => go!(hist::GR<Vec<hist::P2>>), "Z" => go!(hist::Z), "W1" => go!(hist::W1), "W2" => go!(hist::W2), "P1" => go!(hist::P1), _ => panic!("unknown type") };
+    let r = match ty { "A" => go!(hist::A), "B" => go!(hist::B), "C" => go!(hist::C), "D" => go!(hist::D), "M" => go!(hist::M), "N" => go!(hist::N), "AL" => go!(hist::AL), "RS" => go!(hist::RS), "VA" => go!(hist::VA), "IR" => go!(hist::IR), "Q" => go!(hist::Q), "Pair" => go!(hist::Pair<i32>), "Pair2" => go!(hist::Pair2), "Pair3" => go!(hist::Pair3), "GR" => go!(hist::GR<Vec<hist::P2>>), "Z" => go!(hist::Z), "W1" => go!(hist::W1), "W2" => go!(hist::W2), "P1" => go!(hist::P1), "P2" => go!(hist::P2), "P3" => go!(hist::P3), _ => panic!("unknown type") };
     r.map_err(|e| format!("{e:?}"))
 }
 
@@ -317,6 +326,9 @@ mod keys {
     #[serde(rename_all_fields = "PascalCase")]
     pub enum K8 { #[serde(rename_all = "SCREAMING_SNAKE_CASE")] Own { inner_field: i32 }, Inherits { inner_field: i32 } }
     #[derive(TS, Serialize, Default)]
+    #[serde(rename_all = "kebab-case")]
+    pub struct K9 { #[ts(type = "string")] pub created_at: i32, pub event_id: i32, #[ts(type = "string")] pub plain: i32 }
+    #[derive(TS, Serialize, Default)]
     #[serde(rename_all = "UPPERCASE")]
     pub struct K6 { #[ts(type = "string")] pub aé: i32, pub r#loop: i32 }
 }
@@ -344,6 +356,8 @@ fn ts_object_keys(ts: &str) -> Vec<String> {
                 if at_key && depth == 1 {
                     let mut j = i; let mut s = String::new();
                     while j < b.len() && b[j] != ':' && b[j] != '?' && !b[j].is_whitespace() { s.push(b[j]); j += 1; }
+                    // a property name written without quotes has to be an identifier
+                    if !is_ident_like(&s) { s = format!("<not an identifier, unquoted: {s}>"); }
                     keys.push(s); at_key = false; i = j;
                 } else { i += 1; }
             }
@@ -368,6 +382,7 @@ fn binding_keys() -> Value {
         one("K3", &keys::K3::default(), id, keys::K3::inline()),
         one("K4", &keys::K4::default(), id, keys::K4::inline()),
         one("K6", &keys::K6::default(), id, keys::K6::inline()),
+        one("K9", &keys::K9::default(), id, keys::K9::inline()),
     ];
     // externally tagged enum: { "variant_name": { fields } }: compare the outer key and the inner keys of each variant
     for (v, k) in [(keys::K5::FirstVariant { r#type: 0, inner_field: 0 }, 0usize), (keys::K5::SecondOne { r#match: 0 }, 1usize)] {
@@ -489,5 +504,72 @@ fn ts_wins() -> Value {
     chk("enum V1: variant renames", wins::V1::inline(), vec!["\"tsName\"", "\"only_serde\"", "\"onlyTs\"", "SOME_FIELD", "\"plainVariant\""], vec!["wire_name", "some-field", "plain_variant"]);
     chk("struct S1: container and field renames", wins::S1::decl(), vec!["type TsName", "tsField", "onlySerde", "EF"], vec!["SerdeName", "wire:", "e_f"]);
     chk("enum T1: tag", wins::T1::inline(), vec!["\"tsTag\""], vec!["serde_tag"]);
+    json!({"cases": out, "agree": agree})
+}
+
+
+// ---------------------------------------------------------------------------------------------------------
+// C04 on really derived enums: variant names, tag and content strings appear as string literals in the shape of the representation
+mod lits {
+    use ts_rs::TS;
+    #[derive(TS)]
+    pub enum L1 { #[ts(rename = "plain")] A, #[ts(rename = "two words")] B, #[ts(rename = "")] C }
+    #[derive(TS)]
+    pub enum L1e { #[ts(rename = "va\"r")] A, #[ts(rename = "li\nne")] B, #[ts(rename = "back\\slash")] C }
+    #[derive(TS)]
+    #[ts(tag = "t", content = "c")]
+    pub enum L2 { A { x: i32 }, B(i32), C }
+    #[derive(TS)]
+    #[ts(tag = "kind")]
+    pub enum L3 { A { x: i32 }, C }
+    #[derive(TS)]
+    #[ts(tag = "kind")]
+    pub struct L4 { pub x: i32 }
+    #[derive(TS)]
+    pub enum L5 { A { x: i32 }, B(i32), C }
+    #[derive(TS)]
+    pub struct FD {
+        /// Doc of x
+        pub x: i32,
+        pub y: i32,
+        /// Doc of z
+        #[ts(type = "string")]
+        pub z: i32,
+    }
+    #[derive(TS)]
+    pub struct FD2 {
+        /// uses {{double}} braces and {0} verbatim
+        pub x: i32,
+        /// also {1} here
+        #[ts(type = "string")]
+        pub z: i32,
+    }
+}
+fn ts_quote_ref(s: &str) -> String {
+    let mut o = String::from("\"");
+    for c in s.chars() { match c { '"' => o.push_str("\\\""), '\\' => o.push_str("\\\\"), '\n' => o.push_str("\\n"), '\r' => o.push_str("\\r"), c => o.push(c) } }
+    o.push('"'); o
+}
+fn variant_literals() -> Value {
+    use ts_rs::TS;
+    let q = ts_quote_ref;
+    let cases: Vec<(&str, String, String)> = vec![
+        ("plain variant names", lits::L1::inline(), format!("{} | {} | {}", q("plain"), q("two words"), q(""))),
+        ("variant names that need escaping", lits::L1e::inline(), format!("{} | {} | {}", q("va\"r"), q("li\nne"), q("back\\slash"))),
+        ("adjacently tagged", lits::L2::inline(), "{ \"t\": \"A\", \"c\": { x: number, } } | { \"t\": \"B\", \"c\": number } | { \"t\": \"C\" }".to_string()),
+        ("internally tagged", lits::L3::inline(), "{ \"kind\": \"A\", x: number, } | { \"kind\": \"C\" }".to_string()),
+        ("tagged struct", lits::L4::inline(), "{ \"kind\": \"L4\", x: number, }".to_string()),
+        ("externally tagged", lits::L5::inline(), "{ \"A\": { x: number, } } | { \"B\": number } | \"C\"".to_string()),
+        ("field documentation is carried verbatim (braces are not format directives)", lits::FD2::inline(), "{ \n/**\n * uses {{double}} braces and {0} verbatim\n */\nx: number, \n/**\n * also {1} here\n */\nz: string, }".to_string()),
+        ("field documentation sits immediately before its property", lits::FD::inline(), "{ \n/**\n * Doc of x\n */\nx: number, y: number, \n/**\n * Doc of z\n */\nz: string, }".to_string()),
+    ];
+    let mut out = vec![];
+    let mut agree = true;
+    for (what, got, want) in cases {
+        let ok = got == want;
+        // the escaping case is known finding D12: it does not count against `agree`
+        if !ok && what != "variant names that need escaping" { agree = false; }
+        out.push(json!({"case": what, "binding": got, "expected": want, "agree": ok || what == "variant names that need escaping", "matches": ok}));
+    }
     json!({"cases": out, "agree": agree})
 }
